@@ -256,7 +256,23 @@ Variable SF : sfk.                         (* inside a function literal: the kin
 
 (* B lists exactly the names bound in the scopes of the activation *)
 Definition bound2 (B : kctx) (env : fenv) : Prop :=
-  (forall x, lookup_scopes x (locals env) <> None <-> In x (map fst B)) /\ (forall x, In x (map fst B) -> uname0 x).
+  (forall x, x <> hid -> (lookup_scopes x (locals env) <> None <-> In x (map fst B))) /\ (forall x, In x (map fst B) -> uname0 x).
+Lemma bound2_in : forall B env x, bound2 B env -> x <> hid -> lookup_scopes x (locals env) <> None -> In x (map fst B).
+Proof. intros B env x [H _] Hx Hl. exact (proj1 (H x Hx) Hl). Qed.
+Lemma bound2_declare : forall B env x k c sc l env', bound2 B env -> locals env = sc :: l -> locals env' = assoc_set x c sc :: l ->
+  uname0 x -> bound2 ((x, k) :: B) env'.
+Proof.
+  intros B env x k c sc l env' [H1 H2] El El' Hx. split.
+  - intros y Hy. rewrite El'. cbn [lookup_scopes map fst In]. destruct (list_eq_dec N.eq_dec y x) as [->|Hne].
+    + rewrite assoc_set_same. split; [intros _; now left|discriminate].
+    + rewrite assoc_set_other by exact Hne. pose proof (H1 y Hy) as Hyy. rewrite El in Hyy. cbn [lookup_scopes] in Hyy. rewrite Hyy.
+      split; [intros H; now right|intros [H|H]; [congruence|exact H]].
+  - intros y [<-|Hy]; [exact Hx|exact (H2 y Hy)].
+Qed.
+Lemma bound2_push : forall B env, bound2 B env -> bound2 B (push_scope env).
+Proof. intros B env [X1 X2]. split; [intros x Hx; cbn [push_scope locals lookup_scopes assoc]; apply X1; exact Hx|exact X2]. Qed.
+Lemma bound2_look : forall B env x, bound2 B env -> In x (map fst B) -> lookup_scopes x (locals env) <> None.
+Proof. intros B env x [H H2] Hin. exact (proj2 (H x (proj2 (proj2 (H2 x Hin)))) Hin). Qed.
 
 (* the executing function value is a closure related to (fnm, cb): what `self(..)` calls *)
 Definition cur_ok (b : cinj) (env : fenv) : Prop :=
@@ -468,6 +484,72 @@ Proof.
     exists g'. split; [cbn [pop_frames]; unfold pop_frame; rewrite Ef; exact E1|]. split.
     + replace (popn (S m) env) with (popn m (pop_scope env)); [exact HC'|]. unfold popn, pop_scope. cbn [locals captured cur]. rewrite El. reflexivity.
     + split; [rewrite F; reflexivity|auto].
+Qed.
+(* ---- the hidden counter of an anonymous from loop: the reference semantics declares the name `hid`, the VM has bound a
+   loop register to a cell of its own before (the upper bound was evaluated in between): the two cells are paired now *)
+Lemma heap_pair_late : forall b s g v c', heap_ok b s g -> first_order v -> cell_get g c' = Some (inj v) -> (forall c k, ~ b c c' k) ->
+  let c := N.of_nat (length (store s)) in
+  heap_ok (add_pair b c c' KD) {| store := store s ++ [v]; rout := rout s |} g.
+Proof.
+  intros b s g v c' H Hfo Hc' Hn c. pose proof H as [H1 H2].
+  assert (Hle : cinj_le b (add_pair b c c' KD)) by (intros x y z Hb; left; exact Hb).
+  split.
+  - intros d d' k' [Hd|(-> & -> & ->)].
+    + destruct (H1 _ _ _ Hd) as (v0 & w0 & A1 & A2 & A3). exists v0, w0. unfold sget in *. cbn [store].
+      rewrite nth_error_app1 by (apply nth_error_Some; congruence). split; [exact A1|]. split; [exact A2|]. eapply vrel_mono; eassumption.
+    + exists v, (inj v). unfold sget, c. cbn [store]. rewrite Nnat.Nat2N.id, nth_error_app2, Nat.sub_diag by lia.
+      split; [reflexivity|]. split; [exact Hc'|]. split; [exact Hfo|reflexivity].
+  - intros c1 c1' k1 c2 c2' k2 [Ha|(-> & -> & ->)] [Hb|(-> & -> & ->)].
+    + exact (H2 _ _ _ _ _ _ Ha Hb).
+    + destruct (heap_valid _ _ _ _ _ _ H Ha) as [A1 _]. split; [split|]; intros E; subst.
+      * unfold c in A1. rewrite Nnat.Nat2N.id in A1. lia.
+      * exfalso. exact (Hn _ _ Ha).
+      * unfold c in A1. rewrite Nnat.Nat2N.id in A1. lia.
+    + destruct (heap_valid _ _ _ _ _ _ H Hb) as [A1 _]. split; [split|]; intros E; subst.
+      * unfold c in A1. rewrite Nnat.Nat2N.id in A1. lia.
+      * exfalso. exact (Hn _ _ Hb).
+      * unfold c in A1. rewrite Nnat.Nat2N.id in A1. lia.
+    + split; [tauto|reflexivity].
+Qed.
+
+Lemma Cl_declare_hid : forall b B env s g v c' sc l,
+  Cl b B env s g -> locals env = sc :: l -> first_order v -> cell_get g c' = Some (inj v) -> (forall c k, ~ b c c' k) ->
+  let c := N.of_nat (length (store s)) in
+  Cl (add_pair b c c' KD) B {| locals := assoc_set hid c sc :: l; captured := captured env; cur := cur env |}
+     {| store := store s ++ [v]; rout := rout s |} g.
+Proof.
+  intros b B [lc cap cu] [st ro] g v c' sc l [H1 H2 H3 H4 H5 H6 H7 H8 H9 H10] El Hfo Hc' Hn c.
+  cbn [locals captured cur store rout] in *. subst lc.
+  assert (Hle : cinj_le b (add_pair b c c' KD)) by (intros x y z Hb; left; exact Hb).
+  constructor; cbn [locals captured cur store rout]; try assumption.
+  - exact (heap_pair_late b {| store := st; rout := ro |} g v c' H1 Hfo Hc' Hn).
+  - destruct (frames g) as [|f fs] eqn:Ef; [destruct (Rfr2_ne _ _ _ H2); congruence|].
+    apply (Rfr2_mono b); [exact Hle|]. cbn [Rfr2] in H2 |- *. destruct H2 as [Hl H2]. split; [|exact H2].
+    intros y Hy. cbn [lookup_scopes]. rewrite assoc_set_other by (intros E; exact (proj2 (proj2 Hy) E)). exact (Hl y Hy).
+  - intros y ky E. destruct (H3 y ky E) as (Hy & d & d' & A1 & A2 & A3). split; [exact Hy|]. exists d, d'.
+    cbn [lookup_scopes] in *. rewrite assoc_set_other by (intros E0; exact (proj2 (proj2 Hy) E0)). auto.
+  - intros y ky E. destruct (H4 y ky E) as (Hy & d & d' & A1 & A2 & A3). split; [exact Hy|]. exists d, d'. auto.
+  - apply NS_declare; [exact H7|now left].
+  - eapply cur_ok_mono; [exact Hle|]. eapply cur_ok_eq; [|exact H10]. reflexivity.
+Qed.
+
+(* the end of an anonymous loop: the hidden name / the two loop registers leave the innermost scope / the top frame *)
+Lemma Cl_undeclare_hid : forall b B env s g sc l f fs vs,
+  Cl b B env s g -> locals env = sc :: l -> frames g = f :: fs ->
+  (forall y, uname0 y -> assoc y vs = assoc y (vars f)) -> keys_nd vs ->
+  Cl b B (undeclare env hid) s (with_frames g ({| lab := lab f; vars := vs |} :: fs)).
+Proof.
+  intros b B [lc cap cu] s [cs fr o tr] sc l f fs vs [H1 H2 H3 H4 H5 H6 H7 H8 H9 H10] El Ef Hvs Hnd.
+  cbn [locals captured cur cells frames out] in *. subst lc fr. unfold undeclare. cbn [locals captured cur with_frames frames cells out].
+  assert (Hfind : forall x, uname0 x -> find_in_function x ({| lab := lab f; vars := vs |} :: fs) = find_in_function x (f :: fs)).
+  { intros x Hx. cbn [find_in_function vars lab]. now rewrite (Hvs x Hx). }
+  constructor; cbn [locals captured cur cells frames out]; try assumption.
+  - cbn [Rfr2] in H2 |- *. destruct H2 as [Hl H2]. split; [|exact H2].
+    intros y Hy. cbn [with_frames frames]. rewrite (Hfind y Hy). cbn [lookup_scopes]. rewrite assoc_del_other by (exact (proj2 (proj2 Hy))). exact (Hl y Hy).
+  - intros y ky E. destruct (H3 y ky E) as (Hy & c & c' & A1 & A2 & A3). split; [exact Hy|]. exists c, c'.
+    cbn [with_frames frames]. rewrite (Hfind y Hy). cbn [lookup_scopes] in *. rewrite assoc_del_other by (exact (proj2 (proj2 Hy))). auto.
+  - exact (NS_undeclare _ _ _ H7).
+  - apply (nd_top f fs); assumption.
 Qed.
 End Act.
 End Rel.
